@@ -512,6 +512,16 @@ def run(ctx):
         if (name, n) in combos:
             metas[(name, n)] = mo
 
+    # Problems of one family in several dimensions live side by side (a study over the dimension): after the pass above
+    # (ascending dimensions) a second set of objects is built in DESCENDING order and used from here on - an object must not
+    # depend on which other instances of its class were constructed before or after it.
+    for (name, n) in sorted(metas, key=lambda t: (t[0], -t[1])):
+        try:
+            cls = getattr(modules()[FAMILIES[name][0]], name)
+            _cache[(name, n)] = cls(**{"dimension": n})
+        except Exception:      # noqa  (constructor failures were judged above)
+            pass
+
     # ---- 2. points: implementation (both kinds) vs Float model, property clauses on the implementation's values
     work = []       # (name, n, tag, x)
     for (name, n), mo in metas.items():
